@@ -197,6 +197,9 @@ def contract(key, props=(), inline=False):
     if "#" in key:
         c.short = c.qualname + "#" + key.split("#")[1]
         c.inline = True
+    if key in REGISTRY:
+        # a second contract under the same key would silently replace the first one (and whatever other contracts use it as an assumed callee)
+        raise ValueError("contract key %s is already registered - use a '#variant' key" % key)
     REGISTRY[key] = c
     return c
 
